@@ -85,7 +85,6 @@ replay_proof! {
         match open(replay_config(None)) {
             Some(rl) => {
                 assert_matches(&rl, &m);
-                assert_open_pinned(&rl);
                 assert_read(&rl, &m, 0, 255);
                 assert!(rl.wal.closed.len() == 0, "a healthy last chunk is reopened for appending");
                 assert!(rl.wal.open.chunk.global_end() == end as u64, "journal does not continue at the end of the reopened chunk");
@@ -128,7 +127,6 @@ replay_proof! {
         match open(replay_config(None)) {
             Some(rl) => {
                 assert_matches(&rl, &m);
-                assert_open_pinned(&rl);
                 assert_cached(&rl, &m);
                 assert!(untouched(0, end), "clean image modified by open");
                 kani::cover!(b1.0 < a1.0, "re-appended entry has a lower term than the truncated one");
@@ -162,7 +160,6 @@ replay_proof! {
         match open(replay_config(None)) {
             Some(rl) => {
                 assert_matches(&rl, &m);
-                assert_open_pinned(&rl);
                 assert_cached(&rl, &m);
                 assert!(untouched(0, end), "clean image modified by open");
                 kani::cover!(m.n == 1 && m.purged == Some(a0), "one live entry above the purge point");
@@ -198,7 +195,6 @@ replay_proof! {
         match open(replay_config(None)) {
             Some(rl) => {
                 assert_matches(&rl, &m);
-                assert_open_pinned(&rl);
                 assert_read(&rl, &m, 0, 255);
                 assert!(rl.wal.open.chunk.global_start() == base && rl.wal.open.chunk.global_end() == base + end as u64);
                 assert!(untouched(0, end));
@@ -308,7 +304,6 @@ replay_proof! {
         match open(replay_config(None)) {
             Some(rl) => {
                 assert_matches(&rl, &m);
-                assert_open_pinned(&rl);
                 assert_cached(&rl, &m);
                 assert!(rl.wal.closed.len() == 1 && rl.wal.open.chunk.global_start() == end0 as u64, "chunks not chained");
                 assert!(rl.wal.open.chunk.global_end() == (end0 + end1) as u64);
@@ -335,7 +330,6 @@ replay_proof! {
         match open(replay_config_cache(None, Some(1), None)) {
             Some(rl) => {
                 assert_matches(&rl, &m);
-                assert_open_pinned(&rl);
                 // the oldest entry: evicted, read back from the closed chunk's file
                 assert_read(&rl, &m, m.e[0].0 .1 as u64, m.e[0].0 .1 as u64 + 1);
                 let st = rl.stat();
@@ -374,7 +368,6 @@ replay_proof! {
                         m.do_append(id, p);
                         assert!(seg.offset().0 == end as u64, "first record after restart is not journalled at the end of the replayed bytes");
                         assert_matches(&rl, &m);
-                assert_open_pinned(&rl);
                         assert_read(&rl, &m, 0, 255);
                         kani::cover!(true, "append after restart");
                     }
@@ -382,7 +375,6 @@ replay_proof! {
                         core::mem::forget(e);
                         assert!(!m.append_ok(id), "append after restart refused although the reference log accepts it");
                         assert_matches(&rl, &m);
-                assert_open_pinned(&rl);
                         kani::cover!(true, "refused append after restart");
                     }
                 }
@@ -421,7 +413,6 @@ fn torn_tail(k: usize, then_write: u8) {
             assert!(rl.wal.open.chunk.global_start() == e1 as u64, "new chunk does not start at the recovered end");
             assert!(gfs::find_chunk(e1 as u64).is_some(), "no file created for the new chunk");
             kani::cover!(true, "recovered from a torn tail");
-            assert_open_pinned(&rl);
             if then_write == 1 {
                 let v: Id = kani::any();
                 kani::assume(m.vote_ok(v));
@@ -442,7 +433,6 @@ fn torn_tail(k: usize, then_write: u8) {
                 assert!(ok, "store unusable after recovery");
                 m.do_append(id, p);
                 assert_matches(&rl, &m);
-                assert_open_pinned(&rl);
                 assert_cached(&rl, &m);
                 kani::cover!(true, "write after recovery");
             }
@@ -483,7 +473,6 @@ replay_proof! {
         match open(replay_config(None)) {
             Some(rl) => {
                 assert_matches(&rl, &m);
-                assert_open_pinned(&rl);
                 assert!(untouched(0, end0), "an older chunk was modified by recovery");
                 let f = &gfs::fs().files[1];
                 assert!(f.len == h as u64 && f.n_set_len == 1);
@@ -574,7 +563,6 @@ replay_proof! {
         match open(replay_config(None)) {
             Some(rl) => {
                 assert_matches(&rl, &m);
-                assert_open_pinned(&rl);
                 assert!(rl.wal.closed.len() == 0 && rl.wal.open.chunk.global_start() == 0);
                 kani::cover!(true, "fresh store after a crash during the very first open");
                 core::mem::forget(rl);
@@ -747,7 +735,6 @@ replay_proof! {
         match open(replay_config(None)) {
             Some(rl) => {
                 assert_matches(&rl, &m);
-                assert_open_pinned(&rl);
                 assert!(untouched(0, end));
                 kani::cover!(m.n == 0 && m.purged == Some(a0), "the final purge is replayed");
                 core::mem::forget(rl);
